@@ -77,6 +77,14 @@ class C15(fw.Prop):
                 ids[b] = c[1]
                 return b
             parser = ProfileGenericBufferParser(capture_objects=caps, capture_period=period)
+            if d.get("used_before"):
+                # the same parser object has parsed another buffer (with transmitted clocks) before: a buffer is parsed on
+                # its own - leading null clocks have no previous row
+                import datetime as _dt
+                try:
+                    parser.parse_entries([[dt_bytes(10 ** 15, 0) if c else 77 for c in clocks] for _ in range(2)])
+                except Exception:  # noqa
+                    pass
             if via_bytes:
                 def to_tree(c):
                     if c[0] == "N":
@@ -87,7 +95,11 @@ class C15(fw.Prop):
                             return ("o", b"")
                         if c[1] == 3:
                             return ("a", [])
-                        return ("u32", c[1])
+                        # the value id travels in different integer types (negative for the signed ones); read back by magnitude
+                        kind = ("u32", "i64", "i32", "u16", "i16", "u64")[c[1] % 6]
+                        if kind.startswith("i"):
+                            return (kind, -c[1] if c[1] < 30000 else -(c[1] % 30000))
+                        return (kind, c[1] if kind != "u16" else c[1] % 65536)
                     b = dt_bytes(c[2], c[3])
                     ids[b] = c[1]
                     return ("o", b)
@@ -98,8 +110,9 @@ class C15(fw.Prop):
                 # read many times, or many meters of one type with differently configured profiles)
                 from dlms_cosem.cosem import profile_generic as pg
                 from dlms_cosem.protocol.xdlms.selective_access import CaptureObject
+                sm = d.get("sort_method")
                 inst = pg.ProfileGeneric(logical_name=cosem.Obis(1, 0, 99, 1, 0, 255), capture_objects=[CaptureObject(a, 0) for a in caps],
-                                         capture_period=period)
+                                         capture_period=period, sort_method=None if sm is None else pg.SortMethod(sm))
                 out = pg.ProfileGeneric.DYNAMIC_CONVERTERS[2](inst, [[to_py(c) for c in r] for r in rows])
             else:
                 out = parser.parse_entries([[to_py(c) for c in r] for r in rows])
@@ -127,6 +140,8 @@ class C15(fw.Prop):
                         cells.append(f"{col}=v1")
                     elif isinstance(v, list) and not v:
                         cells.append(f"{col}=v3")
+                    elif via_bytes and isinstance(v, int) and v < 0:
+                        cells.append(f"{col}=v{-v}")
                     else:
                         cells.append(f"{col}=v{v}")
                 txt.append(",".join(cells))
@@ -216,7 +231,9 @@ class C15(fw.Prop):
             if k % 3 == 0:
                 yield self.make_case(dict(d, via_bytes=True))
             if k % 4 == 1:
-                yield self.make_case(dict(d, via_profile=True))
+                yield self.make_case(dict(d, via_profile=True, sort_method=rng.choice([None, 1, 2, 3, 4, 5, 6])))
+            if k % 5 == 2:
+                yield self.make_case(dict(d, used_before=True))
             if nrows and k % 4 == 0:
                 bad = [list(r) for r in rows]
                 i = rng.randrange(nrows)
